@@ -210,13 +210,29 @@ theorem logical_layered (env : PEnv) (lower : Option Level) (input rest₀ final
 /-! ## 5. `not` binds tightest -/
 
 /-- `not x …` / `! x …`: the operand of `not` is exactly the next *simple* expression (one
-nesting level down); whatever follows it is left for the caller. -/
-theorem not_binds_tightest (env : PEnv) (lw : Level) (x : Input) :
+nesting level down); whatever follows it is left for the caller. For the WORD `not` this holds
+whenever it is the operator in the sense of `LogicalExpr::lex_unary_op`: nothing name-like is
+glued to it (`gluedTo x = false`: a space, `(`, `!`, end of input … follows), or the maximal
+dotted name starting at the `n` is not registered (`nott` with no field `nott` is `not t`).
+The remaining case is `not_prefixed_name_is_identifier` below. (Before the fix of `lex_unary_op`
+the statement held without the hypothesis, and registered names beginning with `not` were
+unusable at the start of an operand.) -/
+theorem not_binds_tightest (env : PEnv) (lw : Level) (x : Input)
+    (hop : gluedTo x = false ∨ isRegistered env.scheme ("not".toList ++ x) = false) :
     simpleL env (some lw) ("not".toList ++ x) =
       match lw.simple (skipSpace x) with
       | .error e => .error e
       | .ok (e, r) => .ok ({ node := .unaryNot e.node, ty := e.ty }, r) :=
-  simpleL_not env lw x
+  simpleL_not env lw x hop
+
+/-- `not` followed by layout, `(`, `!` or the end of the input is always the operator -/
+theorem not_binds_tightest_spaced (env : PEnv) (lw : Level) (x : Input)
+    (hx : gluedTo x = false) :
+    simpleL env (some lw) ("not".toList ++ x) =
+      match lw.simple (skipSpace x) with
+      | .error e => .error e
+      | .ok (e, r) => .ok ({ node := .unaryNot e.node, ty := e.ty }, r) :=
+  simpleL_not env lw x (.inl hx)
 
 theorem bang_binds_tightest (env : PEnv) (lw : Level) (x : Input) :
     simpleL env (some lw) ("!".toList ++ x) =
@@ -225,15 +241,27 @@ theorem bang_binds_tightest (env : PEnv) (lw : Level) (x : Input) :
       | .ok (e, r) => .ok ({ node := .unaryNot e.node, ty := e.ty }, r) :=
   simpleL_bang env lw x
 
+/-- **a registered name that begins with the word `not` is an identifier** (`lex_unary_op`):
+when name characters are glued to `not` and `Identifier::lex_with` finds the maximal dotted name
+in the scheme, `lex_simple_expr` does not descend: it reads the comparison that starts with
+that identifier, at the SAME nesting level (`notes == "x"` is the field `notes`, never
+`not es == "x"`). -/
+theorem not_prefixed_name_is_identifier (env : PEnv) (lower : Option Level) (x : Input)
+    (hg : gluedTo x = true) (hr : isRegistered env.scheme ("not".toList ++ x) = true) :
+    simpleL env lower ("not".toList ++ x) = comparisonL env lower ("not".toList ++ x) :=
+  simpleL_not_registered env lower x hg hr
+
 /-! ## 5b. Precedence at CHARACTER level, for whole filters (`parse_render_logical`, **S**)
 
 Definitions (`Lemmas/Render/Defs.lean`): `Sk α` = logical skeleton over abstract atoms
-(`atom`, `not`, `paren`, `chain first [(o₁,e₁),…]`); `Renders A tight sk s` = `s` is one of the
+(`atom`, `not`, `paren`, `chain first [(o₁,e₁),…]`); `Renders env A tight sk s` = `s` is one of the
 spellings of `sk` (any alias of `logicalOps` / `unaryOps` per occurrence, any layout; a space is
 mandatory only between an operand ending with an atom and the next combining operator, and not
-even there for symbolic operators when `tight`); `GoodAtom` = the comparison lexer reads the
+even there for symbolic operators when `tight`; the word `not` may be glued to its operand
+wherever `glueOk env` holds — always, unless the glued text spells a registered name, which
+`lex_unary_op` reads as that identifier); `GoodAtom` = the comparison lexer reads the
 atom's text to the atom's `Bool` node before every continuation the atom stops at (`Stop`), the
-text is not a unary operator / quantifier call, the node is not `combining`; `canon` = the
+text is not a unary operator (`lex_unary_op`) / quantifier call, the node is not `combining`; `canon` = the
 declarative meaning (`layered` for chains); `Admissible` = no combining operator follows (and an
 atom at the end is followed by something it stops at). The same theorem is the base of the
 alias/layout invariance of C07 (`Props/C07Render.lean`). -/
@@ -244,7 +272,7 @@ and `not`s fit the nesting budget `n` is read by `LogicalExpr::lex_with` to exac
 declarative meaning `canon sk` (type `Bool`), leaving any admissible continuation `rest`. -/
 theorem parse_render_logical {α : Type} (env : PEnv) (A : Atoms α) (tight : Bool)
     (hA : ∀ a, GoodAtom env A tight a) (sk : Sk α) (s : Input) (n : Nat)
-    (hr : Renders A tight sk s) (hn : depth sk ≤ n)
+    (hr : Renders env A tight sk s) (hn : depth sk ≤ n)
     (rest : Input) (hrest : Admissible tight sk rest) :
     (level env n).logical (s ++ rest) = .ok ({ node := canon A sk, ty := .bool }, rest) := by
   rw [level_logical]
@@ -258,7 +286,7 @@ open WfModel.Render in
 `and` > `xor` > `or` at the character level. -/
 theorem precedence_whole_filter {α : Type} (env : PEnv) (A : Atoms α) (tight : Bool)
     (hA : ∀ a, GoodAtom env A tight a) (first : Sk α) (ops : List (LogicalOp × Sk α))
-    (s : Input) (n : Nat) (hr : Renders A tight (.chain first ops) s)
+    (s : Input) (n : Nat) (hr : Renders env A tight (.chain first ops) s)
     (hn : depth (.chain first ops) ≤ n)
     (rest : Input) (hrest : Admissible tight (.chain first ops) rest) :
     (level env n).logical (s ++ rest) =
@@ -270,7 +298,7 @@ open WfModel.Render in
 applies to `x` alone — the first operand of the layered tree is `unaryNot (canon x)`. -/
 theorem not_binds_tightest_whole_filter {α : Type} (env : PEnv) (A : Atoms α) (tight : Bool)
     (hA : ∀ a, GoodAtom env A tight a) (x : Sk α) (ops : List (LogicalOp × Sk α))
-    (s : Input) (n : Nat) (hr : Renders A tight (.chain (.not x) ops) s)
+    (s : Input) (n : Nat) (hr : Renders env A tight (.chain (.not x) ops) s)
     (hn : depth (.chain (.not x) ops) ≤ n)
     (rest : Input) (hrest : Admissible tight (.chain (.not x) ops) rest) :
     (level env n).logical (s ++ rest) =
@@ -282,7 +310,7 @@ open WfModel.Render in
 within `max_nesting_depth`) is `canon sk` -/
 theorem parse_render_filter {α : Type} (env : PEnv) (A : Atoms α) (tight : Bool)
     (hA : ∀ a, GoodAtom env A tight a) (sk : Sk α) (s : Input)
-    (hr : Renders A tight sk s) (hd : depth sk ≤ env.st.maxDepth) (htrim : trim s = s) :
+    (hr : Renders env A tight sk s) (hd : depth sk ≤ env.st.maxDepth) (htrim : trim s = s) :
     parseFilter env s = .ok (canon A sk) := by
   have h := parse_render_logical env A tight hA sk s env.st.maxDepth hr hd []
     ⟨fun _ => rfl, rfl⟩
@@ -376,7 +404,7 @@ example (tight : Bool) : ∀ x : Render.AB, Render.GoodAtom Render.exEnv Render.
   Render.exAtoms_good tight
 
 /-- … `a or b && a and b or a ^^ b and a || b` is a rendering of the eight-operand chain … -/
-example : Render.Renders Render.exAtoms false Render.exSk8
+example : Render.Renders Render.exEnv Render.exAtoms false Render.exSk8
     "a or b && a and b or a ^^ b and a || b".toList := Render.exRenders8
 
 /-- … so the real parser entry point returns `or[a, and[b,a,b], xor[a, and[b,a]], b]` on it -/
